@@ -1525,17 +1525,16 @@ func c17r9(rc *core.RC) {
 		rc.Unknown(key, fd.Pos(), "the state constants were not found")
 		return
 	}
-	// quick tier: one lead byte per class of the definition, three second bytes, eight boundary bytes;
-	// thorough tier: every lead byte from 0xE0, six second bytes, sixteen boundary bytes
+	// every lead byte from 0xE0; quick tier: three second bytes, eight boundary bytes; thorough tier: six and sixteen
 	boundary := []byte{0x00, 0x22, 0x7f, 0x80, 0xa8, 0xa9, 0xbf, 0xc0}
 	seconds := []byte{0x80, 0x90, 0xa0}
-	longLead := map[int]bool{0xE0: true, 0xE1: true, 0xE2: true, 0xED: true, 0xEE: true, 0xEF: true, 0xF0: true, 0xF1: true, 0xF4: true, 0xF5: true, 0xFF: true}
+	longLead := map[int]bool{}
+	for l := 0xE0; l < 256; l++ {
+		longLead[l] = true
+	}
 	if rc.Tier == "thorough" {
 		boundary = []byte{0x00, 0x22, 0x3f, 0x40, 0x5c, 0x7f, 0x80, 0x8f, 0x90, 0x9f, 0xa0, 0xa8, 0xa9, 0xbf, 0xc0, 0xff}
 		seconds = []byte{0x80, 0x8f, 0x90, 0x9f, 0xa0, 0xbf}
-		for l := 0xE0; l < 256; l++ {
-			longLead[l] = true
-		}
 	}
 	var seqs [][]byte
 	for lead := 0; lead < 256; lead++ {
